@@ -286,7 +286,8 @@ class Base(object):
                                      case.nbw, sensf=o.get('sensf'),
                                      poll_tail=tail, **kw)
         kw = {k: o[k] for k in ('ats_bytes', 'sensb', 'attrib_res',
-                                'le_policy', 'case1') if k in o}
+                                'le_policy', 'case1', 'wide_offset')
+              if k in o}
         # the limits the tag enforces stay those of the product, whatever
         # the (mutated) CC announces
         return hostile.HostileT4(
@@ -452,11 +453,17 @@ def bases():
     t.append(Base(tc.T4Case(0x20, 16, 2, 5, 0, 'A'), 3))
     t.append(Base(tc.T4Case(0x20, 1024, 1024, 2048, 5, 'B'), 2046))
     t.append(Base(tc.T4Case(0x30, 257, 256, 257, 8, 'A'), 253))
+    # a mapping 3.0 file of more than 64 KiB (only used by the 'wide' cases
+    # of host_cases: NLEN around 8000h / 10000h, card with 15 / 16 bit
+    # READ BINARY offsets)
+    w = [Base(tc.T4Case(0x30, 255, 255, 70000, 8, 'A'), 66000)]
     for b in q:
         b.tier = 'quick'
     for b in t:
         b.tier = 'thorough'
-    for b in q + t:
+    for b in w:
+        b.tier = 'wide'
+    for b in q + t + w:
         assert b.name not in _BASES, b.name
         _BASES[b.name] = b
     return _BASES
@@ -464,7 +471,7 @@ def bases():
 
 def tier_bases(tier):
     return [b for b in bases().values()
-            if tier == 'thorough' or b.tier == 'quick']
+            if (tier == 'thorough' and b.tier != 'wide') or b.tier == 'quick']
 
 
 # ---------------------------------------------------------------------------
@@ -1021,6 +1028,25 @@ def stop_cases(tier):
 def host_cases(tier):
     out = []
     th = tier == 'thorough'
+    for b in bases().values():
+        if b.tier != 'wide':
+            continue
+        nl = [i for i, f in enumerate(b.fields) if f[2] == 'nlen']
+        cap = b.case.ref_capacity()
+        for wide in (False, True):
+            for nlen in (None, 0x7FFB, 0x7FFC, 0x7FFD, 0xFFFB, 0xFFFC, 0xFFFD,
+                         0x10000, 0x10001, cap - 1, cap, cap + 1):
+                muts = [] if nlen is None else [
+                    (fi, nlen >> (8 * (len(nl) - 1 - k)) & 255)
+                    for k, fi in enumerate(nl)]
+                out.append(dict(base=b.name, muts=muts,
+                                opts=dict(wide_offset=wide),
+                                cls='nlen%s,offsets=%dbit' % (
+                                    '=valid' if nlen is None else (
+                                        '<8000h' if nlen < 0x7FFC else (
+                                            '<10000h' if nlen < 0xFFFC
+                                            else '>=10000h')),
+                                    16 if wide else 15)))
     for b in tier_bases('thorough'):
         n, names, napdu = fault_free(b)
         if b.kind == 'T2':
